@@ -667,7 +667,7 @@ def run(ctx: Ctx) -> None:
     ctx.rule('R2', 'is_mergeable is a conjunction containing approved, statuses non-empty, all SUCCESS, batch target_sha == target sha, no DO_NOT_MERGE label', 6)
     ctx.rule('R3', 'a successful merge ends try_to_merge (no second merge) after resetting the target sha', 2)
     ctx.rule('R4', "merge request pins 'sha': self.source_sha; a head change records the head, clears batch and build state", 4)
-    ctx.rule('R5', "tested chain: SUCCESS only from build_state 'success' <- completed successful batch of the current head and target; _heal before every merge attempt", 11)
+    ctx.rule('R5', "tested chain: SUCCESS only from build_state 'success' <- completed successful batch of the current head and target; _heal before every merge attempt", 12)
     ctx.assume('GitHub rejects PUT …/merge when the pinned sha is not the pull request head')
     ctx.assume('within one WatchedBranch._update call no other coroutine mutates the PR objects (guarded by `self.updating`)')
     mods = [pf.load(rel) for rel in pf.walk_py(['ci/ci'])]
